@@ -206,6 +206,59 @@ class Scenario(object):
             witness["plan"], witness["expected"], sorted("h%d" % r for r in prefix_set)), witness)
         return False
 
+    def observe_stepwise(self, shuffle, ks, pool_index, rng):
+        """The plan is a lazy generator and the session consumes it one host at a time while hosts go down and come
+        back (a connection failing mid-request marks the host down): Host.is_up is flipped between next() calls.
+        Whatever happens in between, no host may be yielded twice and no host of the child's plan may be left out."""
+        ctx, world = self.ctx, self.world
+        pol, child = self.policies[shuffle]
+        key = world.pool[pool_index][1]
+        hosts = world.hosts
+        del child.recorded[:]
+        it = pol.make_query_plan("other_ks", Query(key, ks))
+        plan_hosts, flips = [], []
+        try:
+            while True:
+                try:
+                    h = next(it)
+                except StopIteration:
+                    break
+                plan_hosts.append(h)
+                if h.is_up is not True and not child.recorded:
+                    ctx.violation("replica-that-is-not-up-yielded-first", "host %s yielded before the child's plan was consulted while its "
+                                  "is_up is %r" % (h.address, h.is_up), self.label())
+                    return
+                for _ in range(rng.choice([0, 1, 1, 2])):
+                    i = rng.randrange(len(hosts))
+                    # the host just tried fails most often
+                    if rng.random() < 0.5:
+                        i = world.index_of[h.address]
+                    new = rng.choice([True, False, False, None])
+                    hosts[i].is_up = new
+                    flips.append((len(plan_hosts), "h%d" % i, new))
+        finally:
+            for hh, st in zip(hosts, self.up_states):
+                hh.is_up = st
+        if len(child.recorded) != 1:
+            return
+        idx = world.index_of
+        plan = [idx[h.address] for h in plan_hosts]
+        child_plan = [idx[h.address] for h in child.recorded[0]]
+        ctx.case(("stepwise", world.part, tuple(o for _t, o in world.ring), world.locs, self.kind, self.local_dc, self.n_remote, self.live_mask,
+                  self.up_states, shuffle, tuple(flips)), nontrivial=len(flips) > 0 and len(plan) >= 2)
+        ctx.count("stepwise_plans_judged")
+        ctx.count("stepwise_state_changes_between_yields", len(flips))
+        witness = dict(self.label())
+        witness.update({"plan": ["h%d" % h for h in plan], "child_plan": ["h%d" % h for h in child_plan], "shuffle": shuffle,
+                        "is_up_changes_after_nth_yield": flips, "key": key})
+        if len(set(plan)) != len(plan):
+            ctx.violation("plan-repeats-a-host-when-host-state-changes-mid-plan", "token-aware plan %s repeats a host (is_up changed between "
+                          "yields: %s)" % (witness["plan"], flips), witness)
+        elif set(child_plan) - set(plan):
+            ctx.violation("plan-leaves-out-a-host-when-host-state-changes-mid-plan", "token-aware plan %s leaves out %s of the child's plan "
+                          "(is_up changed between yields: %s)" % (witness["plan"], sorted("h%d" % h for h in set(child_plan) - set(plan)), flips),
+                          witness)
+
     def observe_passthrough(self, shuffle, variant, ks, pool_index):
         """No routing key / no keyspace / no query: the child's plan is used as is."""
         ctx, world = self.ctx, self.world
@@ -253,6 +306,8 @@ def run_world(ctx, world, configs, rng, n_scenarios, keys_per_ks):
             if s == "SimpleStrategy":
                 ctx.count("shared_metadata_replans")
                 sc.observe(False, ks, s, o, pi, via, "shared-after-shuffle")
+        for ks, s, o, pi, via in picks[:4]:
+            sc.observe_stepwise(rng.random() < 0.5, ks, pi, rng)
         for variant in ("no-query", "no-routing-key", "no-keyspace"):
             sc.observe_passthrough(rng.random() < 0.5, variant, kss[0][0], rng.randrange(len(world.pool)))
         # the token map is rebuilt so that the next scenario starts from ring order again
@@ -277,6 +332,8 @@ def run(ctx):
                "'up' means Host.is_up is True (None = unknown is not up)")
     ctx.assume("order inside the replica prefix is demanded only for SimpleStrategy without shuffling (ring order from the key's "
                "token); for NetworkTopologyStrategy and for shuffled plans the prefix is compared as a set")
+    ctx.assume("step-wise plans: Host.is_up changes between two next() calls of one plan (the child's plan, a list taken when the child "
+               "is consulted, does not); demanded then: no host twice, no host of the child's plan left out")
     ctx.assume("DCAware children are populated with hosts ordered by datacenter and an explicit local_dc, so that the populate/"
                "inference defects reported under C21 are not what is observed here; rings on which C26 reports a replica defect "
                "are skipped (counted)")
@@ -301,4 +358,5 @@ def run(ctx):
     ctx.floor_counters = {"plans_judged": 15000, "plans_with_replica_prefix": 5000, "plans_with_ring_order_demanded": 500,
                           "shuffled_plans_with_2plus_prefix": 500, "plans_with_local_replica_not_up_in_child_plan": 500,
                           "plans_with_up_local_replica_outside_child_live_set": 200, "plans_with_remote_replicas": 500,
-                          "passthrough_plans_judged": 500, "shared_metadata_replans": 1000}
+                          "passthrough_plans_judged": 500, "shared_metadata_replans": 1000,
+                          "stepwise_plans_judged": 2000, "stepwise_state_changes_between_yields": 2000}
